@@ -179,7 +179,8 @@ class TlcResult:
         self.deadlock = "Deadlock reached" in out
         self.postfail = "Postcondition" in out and "violated" in out
         # errors that are neither property violations nor clean completion
-        self.crashed = (not m) or ("Error: " in out and not self.violated and not self.temporal
+        self.crashed = (not m) or ("TLC threw an unexpected exception" in out) or \
+            ("The error occurred when TLC was evaluating" in out) or ("Error: " in out and not self.violated and not self.temporal
                                    and not self.deadlock and not self.postfail
                                    and "Error: The behavior up to this point" not in out)
 
@@ -385,6 +386,13 @@ class Report:
         wall = time.time() - self.t0
         seen = set()
         nviol = 0
+        counts = {}
+        for desc, payload in self.violations:
+            sig = json.dumps(desc, sort_keys=True)
+            counts[sig] = counts.get(sig, 0) + 1
+        if counts:
+            self.coverage["violation_signatures"] = [{"descriptor": json.loads(k), "count": v}
+                                                      for k, v in sorted(counts.items(), key=lambda kv: -kv[1])][:40]
         for desc, payload in self.violations:
             sig = json.dumps(desc, sort_keys=True)
             if sig in seen:
